@@ -76,12 +76,12 @@ Print Assumptions C13_meta_order.
 (* Re-wrapping / re-indenting: which '-' elision a '+' elision stands for depends only on the
    ORDER of the elisions' positions in the patch.  Any change of layout that keeps the (line,
    column) order among the elisions of a change keeps the pairing. *)
-Theorem C13_rewrap : forall (f : dpos -> dpos) (S : dpos -> Prop) lhs rhs,
+Theorem C13_rewrap : forall (f : dpos -> dpos) (S : dpos -> Prop) lead lhs rhs,
   (forall a, dp_id (f a) = dp_id a) ->
   (forall a b, S a -> S b -> dpos_le (f a) (f b) = dpos_le a b) ->
   (forall x, In x lhs -> S x) -> (forall x, In x rhs -> S x) ->
-  connect_dots (map f lhs) (map f rhs) = connect_dots lhs rhs.
-Proof. intros f S lhs rhs Hid Hle. exact (connect_dots_order_only f S Hid Hle lhs rhs). Qed.
+  connect_dots lead (map f lhs) (map f rhs) = connect_dots lead lhs rhs.
+Proof. intros f S lead lhs rhs Hid Hle. exact (connect_dots_order_only f S Hid Hle lead lhs rhs). Qed.
 Print Assumptions C13_rewrap.
 
 From Coq Require Import String.
